@@ -146,6 +146,19 @@ def run(ctx):
     locked = _tr["locked"] if _tr.get("ok") else None
     psig = "pool-unsynchronised" if locked is False else ("pool-race-despite-sync" if locked else "pool-race-sync-not-recognised")
     ctx.note("translator: locked=%s discipline=%s (%s); anchors %s" % (locked, _tr.get("discipline"), _tr.get("detail"), _tr.get("anchors")))
+    # every other mutable object with static storage duration must be one of the reviewed ones (Conc/Pool.v)
+    import re as _re
+    pv = open(os.path.join(vlib.COQ, "Conc", "Pool.v")).read()
+    m = _re.search(r"Definition reviewed_shared_state[^\[]*\[(.*?)\]\.", pv, _re.S)
+    reviewed = set(_re.findall(r'"([^"]+)"', m.group(1))) if m else set()
+    found = set(_tr.get("shared_state", []))
+    new, gone = sorted(found - reviewed), sorted(reviewed - found)
+    ctx.note("shared mutable state with static storage duration in src/: %d objects, %d reviewed" % (len(found), len(reviewed)))
+    if new:
+        ctx.tie_broken("unreviewed-shared-state", "mutable static / namespace-scope objects not in Conc/Pool.v reviewed_shared_state "
+                       "(instances of different threads may share them): %s" % ", ".join(new))
+    if gone:
+        ctx.tie_broken("reviewed-shared-state-stale", "reviewed objects no longer found in the source (update the review): %s" % ", ".join(gone))
     exe, log = vlib.build_extracted("conc")
     if not exe:
         ctx.tie_broken("extraction-conc", log)
@@ -267,12 +280,16 @@ def run(ctx):
     _lap(ctx, "c-stress")
     # ---- (d) solver instances in threads vs solo -----------------------------------------------------------
     gens = dict(arith=lambda: conclib.arith_big(ctx.rng, ctx.rng.choice(["QF_LRA", "QF_LRA", "QF_LIA"])),
-                uf=lambda: conclib.uf_random(ctx.rng), liacuts=lambda: conclib.lia_cuts(ctx.rng))
-    want = dict(arith=10, uf=6, liacuts=4) if ctx.quick else dict(arith=60, uf=30, liacuts=24)
+                uf=lambda: conclib.uf_random(ctx.rng), liacuts=lambda: conclib.lia_cuts(ctx.rng),
+                # branch-and-bound with many rounds on ~2^40 coefficients (cuts from proofs every 10th round)
+                liabb=lambda: conclib.lia_bb(ctx.rng),
+                # top-level x = const equalities: the arithmetic substitution pass
+                subst=lambda: conclib.subst_const(ctx.rng, ctx.rng.choice(["QF_LIA", "QF_LRA"])))
+    want = dict(arith=10, uf=6, liacuts=4, liabb=16, subst=8) if ctx.quick else dict(arith=60, uf=30, liacuts=24, liabb=48, subst=32)
     groups = {g: [] for g in gens}
     for g in gens:
         tries = 0
-        while len(groups[g]) < want[g] and tries < 40 * want[g]:
+        while len(groups[g]) < want[g] and tries < 4 * want[g]:
             tries += 1
             t = gens[g]()
             rc, o, e = vlib.run_opensmt(t + "(check-sat)\n", timeout=3)
@@ -298,14 +315,14 @@ def run(ctx):
                 if z in ("sat", "unsat") and z != ans:
                     disagree += 1
                     ctx.note("z3 says %s, OpenSMT solo says %s (C01/C02 business, not C24): %s" % (z, ans, t[:200].replace("\n", " ")))
-            for T in ([4] if ctx.quick else [2, 4, 8]):
-                rounds = 2 if ctx.quick else 4
+            for T in (([8] if gname in ("liabb", "subst") else [4]) if ctx.quick else [2, 4, 8]):
+                rounds = (3 if gname == "liabb" else 2) if ctx.quick else 4
                 cmd = [h, "solve", str(T), str(rounds)] + paths
                 rc, out = vlib.sh(cmd, timeout=90)       # a corrupted heap can also hang: a timeout (rc -9) counts as a crash
                 lines = [l.split() for l in out.split("\n") if l.startswith("inst ")]
                 crashed = rc != 0 or len(lines) != len(insts)
                 # every arithmetic instance touches the pool: FastRational(const char*) takes a cell for each parsed numeral
-                sig_pref = "pool-unsynchronised:" if (gname in ("arith", "liacuts") and locked is False) else "concurrent-solve:%s:" % gname
+                sig_pref = "pool-unsynchronised:" if (gname in ("arith", "liacuts", "liabb", "subst") and locked is False) else "concurrent-solve:%s:" % gname
                 if crashed:
                     for t, _ in insts:
                         ctx.case(key="%s:%d:%s" % (gname, T, t), nontrivial=True, kind="threads-%s:%d:crashed-run" % (gname, T))
